@@ -213,9 +213,19 @@ def gen_cases(run, thorough):
 
 
 def parse_r(line):
+    """`R key=value ...`; the value of st= may be a panic message with blanks in it"""
     if not line.startswith("R "):
         return None
-    return dict(x.split("=", 1) for x in line.split()[1:])
+    import re
+    m = re.match(r"R st=(.*?) fin=(\d) (.*)$", line)
+    if not m:
+        return None
+    d = {"st": m.group(1), "fin": m.group(2)}
+    for x in m.group(3).split():
+        if "=" in x:
+            k, v = x.split("=", 1)
+            d[k] = v
+    return d
 
 
 def mutants(rng, hexs, k):
